@@ -204,6 +204,7 @@ def c04_rf18(run):
     rf_inline.rf29(run)
     run.min_instances('RF29', 3)
     rf_proto.rf16j(run)
+    rf_fold.rf38(run)
 
 
 def c16_rf16(run):
@@ -314,6 +315,7 @@ def c02_rf26(run):
     rf_fold.rf26(run)
     run.min_instances('RF26', 10)
     rf_fold.rf34(run)
+    rf_fold.rf38b(run)
 
 
 PLAN = {
